@@ -7,6 +7,9 @@ namespace Gorm.SchemaCache
 theorem upd_ne {α : Type} (f : Nat → α) (k : Nat) (v : α) (i : Nat) (h : i ≠ k) : upd f k v i = f i := by
   simp [upd, h]
 
+/-- hypothesis = negation of the F10/F12 pattern: no relation field points to a DIFFERENT model type -/
+def OnlySelfRels (c : Cfg) : Prop := ∀ ty, ∀ r ∈ relsOf c ty, r.target = ty
+
 def ownerPc : PC → Bool
   | .rel _ => true
   | .relSet _ _ => true
@@ -50,7 +53,7 @@ def PcOK (c : Cfg) (s : State) (t : Nat) (l : List Susp) (ty obj : Nat) : PC →
   | .los => PreMono s l ty ∧ Pre s t l.length ty obj
   | .wait o => o < s.nobj ∧ (s.objs o).stamp ≠ 0 ∧ (s.objs o).ty = ty ∧ Below s l o
   | .rel k => OwnK s t l.length ty obj k ∧ k ≤ (relsOf c ty).length
-  | .relSet k _ => OwnK s t l.length ty obj k ∧ k < (relsOf c ty).length
+  | .relSet k fs => OwnK s t l.length ty obj k ∧ k < (relsOf c ty).length ∧ (OnlySelfRels c → fs = obj)
   | .fin1 => Own s t l.length ty obj ∧ (s.objs obj).stamp ≠ 0 ∧ s.cache ty = some obj ∧
       ((s.objs obj).err = true ∨ (s.objs obj).nrel = (relsOf c ty).length)
   | .fin2 => Own s t l.length ty obj ∧ (s.objs obj).stamp ≠ 0 ∧
@@ -67,6 +70,7 @@ structure ThreadOK (c : Cfg) (s : State) (t : Nat) (th : Thread) : Prop where
   susp : SuspsOK c s t th.susp
   cur : ∀ f, th.cur = some f → PcOK c s t th.susp f.ty f.obj f.pc
   idle : th.cur = none → th.susp = []
+  noSusp : OnlySelfRels c → th.susp = []
 
 def Owns (th : Thread) (o : Nat) : Prop :=
   (∃ f, th.cur = some f ∧ f.obj = o ∧ ownerPc f.pc = true) ∨ (∃ p ∈ th.susp, p.obj = o)
@@ -78,6 +82,14 @@ structure RetOK (c : Cfg) (s : State) (r : Ret) : Prop where
   ok : r.err = false → (s.objs r.obj).err = false ∧ (s.objs r.obj).stamp ≠ 0 ∧ (s.objs r.obj).ty = r.ty ∧
     r.nrelAtRet = (relsOf c r.ty).length
 
+/-- a logged getOrParse cache hit: the object was published, has the type of the relation's target, and under
+  `OnlySelfRels` it is the getter's own object -/
+structure GetOK (c : Cfg) (s : State) (g : Get) : Prop where
+  lt : g.obj < s.nobj
+  stamped : (s.objs g.obj).stamp ≠ 0
+  ty : ∃ r, (relsOf c g.ty)[g.k]? = some r ∧ (s.objs g.obj).ty = r.target
+  own : OnlySelfRels c → (s.objs g.obj).ownT = g.tid
+
 structure Inv (c : Cfg) (s : State) : Prop where
   clock_pos : 1 ≤ s.clock
   stamp_lt : ∀ o, o < s.nobj → (s.objs o).stamp < s.clock
@@ -87,6 +99,8 @@ structure Inv (c : Cfg) (s : State) : Prop where
   thr : ∀ t, ThreadOK c s t (s.thr t)
   owner : ∀ o, o < s.nobj → (s.objs o).stamp ≠ 0 → (s.objs o).closed = false → Owns (s.thr (s.objs o).ownT) o
   rets : ∀ r ∈ s.rets, RetOK c s r
+  gets : ∀ g ∈ s.gets, GetOK c s g
+  backs : OnlySelfRels c → ∀ o, (s.objs o).backs = []
 
 /-- how one step may change the heap; `X` = objects whose core fields / cache entry the step touches -/
 structure HeapRel (s s' : State) (X : List Nat) : Prop where
@@ -219,7 +233,7 @@ theorem PcOK.frame {c : Cfg} {s s' : State} {X t l ty obj pc} (hI : Inv c s) (hR
 
 theorem ThreadOK.frame {c : Cfg} {s s' : State} {X t th} (hI : Inv c s) (hR : HeapRel s s' X)
     (hX : ∀ x ∈ X, x < s.nobj → (s.objs x).ownT ≠ t) (h : ThreadOK c s t th) : ThreadOK c s' t th := by
-  refine ⟨SuspsOK.frame hR _ (fun x hm h1 h2 => absurd h2 (hX x hm h1)) h.susp, ?_, h.idle⟩
+  refine ⟨SuspsOK.frame hR _ (fun x hm h1 h2 => absurd h2 (hX x hm h1)) h.susp, ?_, h.idle, h.noSusp⟩
   intro f hf
   exact PcOK.frame hI hR h.susp (fun x hm h1 h2 => absurd h2 (hX x hm h1)) (h.cur f hf)
 
@@ -231,6 +245,11 @@ theorem RetOK.frame {c : Cfg} {s s' : State} {X r} (hR : HeapRel s s' X) (hx : r
   rw [hc.2.1, hc.2.2.2, hR.ty _ h.lt]
   exact h.ok he
 
+theorem GetOK.frame {c : Cfg} {s s' : State} {X g} (hR : HeapRel s s' X) (h : GetOK c s g) : GetOK c s' g := by
+  refine ⟨Nat.lt_of_lt_of_le h.lt hR.nobj_le, by rw [hR.stamp_eq h.lt h.stamped]; exact h.stamped, ?_, ?_⟩
+  · rw [hR.ty _ h.lt]; exact h.ty
+  · rw [hR.ownT _ h.lt]; exact h.own
+
 /-- the frame rule: everything not belonging to the acting thread `t` is preserved -/
 theorem Inv.frame {c : Cfg} {s s' : State} {X : List Nat} {t : Nat} (hI : Inv c s) (hR : HeapRel s s' X)
     (hX : ∀ x ∈ X, x < s.nobj ∧ (s.objs x).closed = false ∧ (s.objs x).ownT = t)
@@ -240,8 +259,10 @@ theorem Inv.frame {c : Cfg} {s s' : State} {X : List Nat} {t : Nat} (hI : Inv c 
       s'.cache (s'.objs x).ty = some x ∧ (s'.objs x).nrel = (relsOf c (s'.objs x).ty).length)
     (hOwn : ∀ o, o ∉ X → Owns (s.thr t) o → Owns (s'.thr t) o)
     (hOwnX : ∀ x ∈ X, (s'.objs x).stamp ≠ 0 → (s'.objs x).closed = false → Owns (s'.thr t) x)
-    (hrets : ∀ r ∈ s'.rets, r ∈ s.rets ∨ RetOK c s' r) : Inv c s' := by
-  refine ⟨Nat.le_trans hI.clock_pos hR.clock_le, ?_, ?_, ?_, ?_, ?_, ?_⟩
+    (hrets : ∀ r ∈ s'.rets, r ∈ s.rets ∨ RetOK c s' r)
+    (hgets : ∀ g ∈ s'.gets, g ∈ s.gets ∨ GetOK c s' g)
+    (hB : OnlySelfRels c → (∀ o, (s.objs o).backs = []) → ∀ o, (s'.objs o).backs = []) : Inv c s' := by
+  refine ⟨Nat.le_trans hI.clock_pos hR.clock_le, ?_, ?_, ?_, ?_, ?_, ?_, ?_, fun hs => hB hs (hI.backs hs)⟩
   · intro o ho
     by_cases h : o < s.nobj
     · have := hI.stamp_lt o h
@@ -294,6 +315,10 @@ theorem Inv.frame {c : Cfg} {s s' : State} {X : List Nat} {t : Nat} (hI : Inv c 
       intro hm
       have := (hX _ hm).2.1
       rw [hro.closed] at this; cases this
+    · exact h
+  · intro g hg
+    rcases hgets g hg with h | h
+    · exact (hI.gets g h).frame hR
     · exact h
 
 end Gorm.SchemaCache
